@@ -1,6 +1,6 @@
 SPECIFICATION Spec
 CONSTANTS Procs = {1, 2} Keys = {"a"} MaxOps = 2 Defect = "none"
-  MapOps = {"store", "load", "delete", "loadanddelete", "len", "clear", "range"}
+  MapOps = {"store", "load", "delete", "loadanddelete", "len", "clear", "range", "range1"}
   AtomOps = {"getorcreate", "get", "adelete", "aclear", "hadd", "hload"}
-INVARIANTS LinOK OneWinner SameHandle NoLostAdd MutualExclusion ImplMatchesAbs
+INVARIANTS LinOK OneWinner SameHandle NoLostAdd MutualExclusion ImplMatchesAbs LockHeldOnlyInBody NoStuckWaiter
 CHECK_DEADLOCK FALSE
